@@ -1326,7 +1326,7 @@ func (fc *FnCtx) doSend(x *ssa.Send) {
 		}
 	}
 	for _, aa := range fc.contract.Asserts {
-		if aa.Anchor != "send" || aa.Ord != ord || aa.Cl == nil {
+		if aa.Anchor != "send" || (aa.Ord != ord && aa.Ord != -1) || aa.Cl == nil {
 			continue
 		}
 		aa.Matched++
